@@ -145,7 +145,11 @@ static void run_step(Json& js, vh::Rng& rng, long budget) {
     static const int FS[] = {8000, 16000, 44100, 48000, 96000, 192000};
     for (long t = 0; t < budget; ++t) {
         const int fs = FS[rng.range(0, 5)];
-        const long t_us = (long)(std::pow(10.0, 3 + 2.3 * rng.unif()));   // 1 ms .. 200 ms
+        long t_us = (long)(std::pow(10.0, 3 + 2.3 * rng.unif()));   // 1 ms .. 200 ms
+        if (rng.range(0, 2) == 0) {
+            // a few samples only, and not a whole number of them: fs * t in 1.2 .. 40
+            t_us = (long)((1.2 + 38.8 * rng.unif() * rng.unif()) / fs * 1e6);
+        }
         const double tt = t_us * 1e-6;
         const int which = (int)rng.range(0, 2);
         const bool attack = rng.coin();
@@ -208,8 +212,18 @@ static void run_step(Json& js, vh::Rng& rng, long budget) {
             }
             mono = mono && frac <= 1 + 1e-9;
         }
+        // the time constant itself: a one-pole approach has a constant ratio w of successive distances to the target, and
+        // 10 % -> 90 % takes ln 9 / (-ln w) samples, which must be fs * t (not rounded to whole samples)
+        long tau_ppm = -1;
+        if (n10 >= 0 && n90 > n10) {
+            const double r10 = 1 - (g[(int)n10] - start) / (final - start), r90 = 1 - (g[(int)n90] - start) / (final - start);
+            if (r10 > 0 && r90 > 0 && r90 < r10) {
+                const double lw = std::log(r90 / r10) / (double)(n90 - n10);
+                tau_ppm = (long)std::llround(std::log(9.0) / -lw / (fs * (t_us * 1e-6)) * 1e6);
+            }
+        }
         js.begin("Step").str("proc", nm).boolean("attack", attack).num("fs", fs).num("t_us", t_us).num("n10", n10).num("n90", n90)
-          .boolean("mono", mono).end();
+          .boolean("mono", mono).num("tau_ppm", tau_ppm).end();
     }
 }
 
